@@ -102,7 +102,16 @@ def runC15 (fields : List String) (obs : String) : String × String × String :=
         else if s.sign > 0 then
           let exp := expectTerms incl a s b
           if exp.isEmpty then (if isErr || obs == matText kind 1 0 [] then "ok" else "bad:empty range must be an error or empty", false)
-          else (if sameAs exp then "ok" else s!"bad:expected the {exp.length} terms of the progression", true)
+          else
+            -- float kinds: as many terms as the exact progression has before the end, each the sum the fill loop
+            -- accumulates in that kind (a, a+s, (a+s)+s, …; equal to the exact term whenever that is representable)
+            let floatSame : Option Bool :=
+              if kind == "f32" then
+                some (obs == matText kind 1 exp.length ((fillF f32Ops (if hasStep then f32OfText ts else 1.0) exp.length (f32OfText ta)).map f32Text))
+              else if kind == "f64" then
+                some (obs == matText kind 1 exp.length ((fillF f64Ops (if hasStep then f64OfText ts else 1.0) exp.length (f64OfText ta)).map f64Text))
+              else none
+            (if sameAs exp || floatSame == some true then "ok" else s!"bad:expected the {exp.length} terms of the progression", true)
         else
           -- negative step: wrong order (a < b) must fail; a descending range may be an error or the descending vector
           if Dy.lt a b || Dy.eq a b && !incl then (if isErr then "ok" else "bad:wrong order for a negative step", false)
